@@ -82,7 +82,7 @@ class Ctx:
         w32(L1_TABLE + 4 * 0x001, (0x000 << 20) | (0b01 << 10) | (0 << 5) | 0b10)       # alias, privileged only
         w32(L1_TABLE + 4 * 0x002, L2_TABLE | (0 << 5) | 0b01)                           # page table
         w32(L1_TABLE + 4 * 0x003, (0x000 << 20) | (0b11 << 10) | (2 << 5) | 0b10)       # domain 2 (no access)
-        w32(L1_TABLE + 4 * 0x004, (0x000 << 20) | (1 << 15) | (0b11 << 10) | (1 << 5) | 0b10)  # RO, domain 1 (manager)
+        w32(L1_TABLE + 4 * 0x004, (0x001 << 20) | (1 << 15) | (0b11 << 10) | (1 << 5) | 0b10)  # domain 1 (manager: no permission checks) -> unmapped PA 0x00100000
         w32(L1_TABLE + 4 * 0xFFF, (0xFFF << 20) | (0b11 << 10) | (0 << 5) | 0b10)
         for i in range(256):
             w32(L2_TABLE + 4 * i, 0)
